@@ -685,13 +685,17 @@ def gen_C08(rng, n, exhaustive_prefix=True):
     offs = [('order-13', small_order_twist_point(13, rng)), ('order-1621', small_order_twist_point(1621, rng)),
             ('order-21073', small_order_twist_point(13 * 1621, rng)),
             ('subgroup+order-13', pt_add(K2, pt_mul(K2, rng.randrange(1, r), P2), small_order_twist_point(13, rng))),
-            ('random-twist-point', random_curve_point(K2, rng))]
+            ('random-twist-point', random_curve_point(K2, rng)),
+            # y on an axis: Re y = 0 (the sign bit of the compressed format cannot tell y from -y) / Im y = 0
+            ('twist-point-imaginary-y', twist_point_axis_y(rng, True)), ('twist-point-real-y', twist_point_axis_y(rng, False))]
     for lab, T in offs:
         if T is None:
             continue
         out.append((f'g2.from_slice:{lab}', f'g2.from_slice {enc_aff(K2, T)}'))
         out.append((f'g2.from_uncompressed:{lab}', f'g2.from_uncompressed 04{enc_aff(K2, T)}'))
         out.append((f'g2.from_compressed:{lab}', f'g2.from_compressed {2 + (T[1][0] & 1):02x}{K2.enc(T[0])}'))
+        if 'axis' in lab or '-y' in lab:
+            out.append((f'g2.from_compressed:{lab}:other-prefix', f'g2.from_compressed {3 - (T[1][0] & 1):02x}{K2.enc(T[0])}'))
     for _ in range(n):
         g, K, G = rng.choice([('g1', K1, P1), ('g2', K2, P2)])
         A = pt_mul(K, rng.randrange(1, r), G)
